@@ -239,7 +239,7 @@ def run(tier: str, seed: int) -> int:
         env.pop("JAX_ENABLE_X64", None)
         pr = subprocess.run([sys.executable, "-m", "pytest", "-q", "-x", "-p", "no:cacheprovider",
                              "--deselect", "tests/test_nonlinear_funs.py::TestGradientNormAdditional::test_2d"] + tests,
-                            cwd="/repo", env=env, capture_output=True, text=True, timeout=3000)
+                            cwd=os.environ.get("VERIF_REPO") or "/repo", env=env, capture_output=True, text=True, timeout=3000)
         run_.extra["repo_tests_with_hooks"] = pr.stdout.strip().splitlines()[-1] if pr.stdout.strip() else "no output"
         if os.path.exists(suite_trace):
             ok, n, bad = validate_hook_trace(run_, suite_trace, "suite")
